@@ -19,6 +19,7 @@ import (
 	"time"
 
 	gmsl "github.com/matrix-org/gomatrixserverlib"
+	"github.com/matrix-org/gomatrixserverlib/fclient"
 	"github.com/matrix-org/gomatrixserverlib/spec"
 )
 
@@ -88,16 +89,25 @@ func hsVerifierFor(mode string, verImpl gmsl.IRoomVersion, ev gmsl.PDU, name spe
 // hsMembership is the caller's MembershipQuerier.  `cur` scripts the answer ("err" | "m:<membership>").  With `check` set
 // the scripted membership is that of (`wantRoom`, `wantSender`) — the user the property's "target" clause is about; a
 // question about any other room or user fails (the handler then answers with an internal error, which the model does not).
+//
+// `others` (round 5): the querier answers per (room, sender ID).  When set ("m:<membership>") it is the membership of every
+// OTHER sender ID of `wantRoom`: the scripted `cur` stays the membership of the event's target only, so that a handler asking
+// about somebody else — the invited user it was handed instead of the event's state key (HandleInvite), the caller's
+// `InvitedSenderID` instead of the ID `GetOrCreateSenderID` returned (HandleInviteV3) — gets that somebody's membership.
 type hsMembership struct {
 	cur        string
 	check      bool
 	wantRoom   string
 	wantSender spec.SenderID
+	others     string
 }
 
 func (m *hsMembership) CurrentMembership(ctx context.Context, roomID spec.RoomID, senderID spec.SenderID) (string, error) {
 	if m.cur == "err" {
 		return "", errors.New("membership query failed (scripted)")
+	}
+	if m.check && m.others != "" && roomID.String() == m.wantRoom && senderID != m.wantSender {
+		return m.others[2:], nil
 	}
 	if m.check && (roomID.String() != m.wantRoom || senderID != m.wantSender) {
 		return "", errors.New("membership asked for another (room, user) than the target of the event")
@@ -106,6 +116,10 @@ func (m *hsMembership) CurrentMembership(ctx context.Context, roomID spec.RoomID
 }
 
 func hsUserQuerier(mode string) spec.UserIDForSender {
+	if mode == "nil" {
+		// no user for this sender ID and no error: what the repository's own test queriers answer for an unknown sender
+		return func(roomID spec.RoomID, senderID spec.SenderID) (*spec.UserID, error) { return nil, nil }
+	}
 	if mode == "err" {
 		return func(roomID spec.RoomID, senderID spec.SenderID) (*spec.UserID, error) {
 			return nil, errors.New("sender lookup failed (scripted)")
@@ -221,9 +235,34 @@ func (q *hsRestrictedQuerier) RestrictedRoomJoinInfo(ctx context.Context, roomID
 	return info, nil
 }
 
+// hsSeenProto is what the BuildEventTemplate callback was shown: the event that was built from it is the one the auth check
+// ran on, so the proto event the handler RETURNS must still be this one ("the resulting event passes the auth rules").
+type hsSeenProto struct {
+	called   bool
+	p        gmsl.ProtoEvent
+	stateKey *string
+}
+
+func (sp *hsSeenProto) same(p gmsl.ProtoEvent) bool {
+	if !sp.called {
+		return false
+	}
+	skEq := (p.StateKey == nil) == (sp.stateKey == nil) && (p.StateKey == nil || *p.StateKey == *sp.stateKey)
+	return skEq && p.Type == sp.p.Type && p.SenderID == sp.p.SenderID && p.RoomID == sp.p.RoomID && p.Redacts == sp.p.Redacts &&
+		p.Depth == sp.p.Depth && bytes.Equal(p.Content, sp.p.Content) && bytes.Equal(p.Unsigned, sp.p.Unsigned) && bytes.Equal(p.Signature, sp.p.Signature)
+}
+
 // hsTemplate is the BuildEventTemplate callback: it builds the event from the proto event the handler hands over.
-func hsTemplate(ver, tmode, tstate string) func(*gmsl.ProtoEvent) (gmsl.PDU, []gmsl.PDU, error) {
+func hsTemplate(ver, tmode, tstate string, seen *hsSeenProto) func(*gmsl.ProtoEvent) (gmsl.PDU, []gmsl.PDU, error) {
 	return func(p *gmsl.ProtoEvent) (gmsl.PDU, []gmsl.PDU, error) {
+		if seen != nil {
+			seen.called, seen.p = true, *p
+			seen.p.Content = append(spec.RawJSON{}, p.Content...)
+			if p.StateKey != nil {
+				k := *p.StateKey
+				seen.stateKey = &k
+			}
+		}
 		if tmode == "err" {
 			return nil, nil, errors.New("template builder failed (scripted)")
 		}
@@ -352,11 +391,12 @@ func execHandshake(op string, args []string) string {
 				}
 			}
 		}
+		var seen hsSeenProto
 		resp, err := gmsl.HandleMakeJoin(gmsl.HandleMakeJoinInput{
 			Context: ctx, UserID: *userID, SenderID: spec.SenderID(args[2]), RoomID: *roomID, RoomVersion: gmsl.RoomVersion(ver),
 			RemoteVersions: remote, RequestOrigin: spec.ServerName(args[3]), LocalServerName: spec.ServerName(args[4]),
 			LocalServerInRoom: args[5] == "1", RoomQuerier: q, UserIDQuerier: StdQuerier,
-			BuildEventTemplate: hsTemplate(ver, args[12], args[13]),
+			BuildEventTemplate: hsTemplate(ver, args[12], args[13], &seen),
 		})
 		if err != nil {
 			return hsErrClass(err)
@@ -370,6 +410,10 @@ func execHandshake(op string, args []string) string {
 			p.StateKey == nil || *p.StateKey != args[2] || p.RoomID != roomID.String() || string(resp.RoomVersion) != ver {
 			return "ok-bad-proto"
 		}
+		// the returned proto event is the one the template builder was shown (and built the auth-checked event from)
+		if !seen.same(p) {
+			return "ok-proto-not-the-checked-one"
+		}
 		return "ok:via=" + c.Via
 	case "makeleave":
 		ver := args[0]
@@ -381,10 +425,11 @@ func execHandshake(op string, args []string) string {
 		if err != nil {
 			return "err:construct:room"
 		}
+		var seen hsSeenProto
 		resp, err := gmsl.HandleMakeLeave(gmsl.HandleMakeLeaveInput{
 			UserID: *userID, SenderID: spec.SenderID(args[1]), RoomID: *roomID, RoomVersion: gmsl.RoomVersion(ver),
 			RequestOrigin: spec.ServerName(args[2]), LocalServerName: "local", LocalServerInRoom: args[3] == "1", UserIDQuerier: StdQuerier,
-			BuildEventTemplate: hsTemplate(ver, args[5], args[6]),
+			BuildEventTemplate: hsTemplate(ver, args[5], args[6], &seen),
 		})
 		if err != nil {
 			return hsErrClass(err)
@@ -397,9 +442,18 @@ func execHandshake(op string, args []string) string {
 			p.StateKey == nil || *p.StateKey != args[1] || p.RoomID != roomID.String() {
 			return "ok-bad-proto"
 		}
+		if !seen.same(p) {
+			return "ok-proto-not-the-checked-one"
+		}
 		return "ok"
 	case "performjoin":
 		return execPerformJoin(args)
+	case "performjoin_adopt":
+		return execPerformJoinAdopt(args)
+	case "performjoin_bodies":
+		return execPerformJoinBodies(args)
+	case "performjoin_pseudo":
+		return execPerformJoinPseudo(args)
 	case "invitev3":
 		return execInviteV3(args)
 	case "perform_invite":
@@ -437,11 +491,28 @@ func execHandshake(op string, args []string) string {
 		if u, uerr := StdQuerier(*roomID, ev.SenderID()); uerr == nil && u != nil {
 			domOfSender = u.Domain()
 		}
+		// the TARGET of an invite is its state key: `cur` scripts the target's membership, every other sender ID of the
+		// room — the invited user the handler is handed, when that is somebody else — is not joined ("leave")
+		target := spec.SenderID(args[3])
+		if ev.StateKey() != nil {
+			target = spec.SenderID(*ev.StateKey())
+		}
+		// input.InvitedSenderID (optional 11th argument): "same" = the invited user's ID (default), "empty" = "" (what the
+		// repository's own tests pass), "target" = the event's state key
+		inputSID := spec.SenderID(args[3])
+		if len(args) > 10 {
+			switch args[10] {
+			case "empty":
+				inputSID = ""
+			case "target":
+				inputSID = target
+			}
+		}
 		out, err := gmsl.HandleInvite(ctx, gmsl.HandleInviteInput{
-			RoomID: *roomID, RoomVersion: gmsl.RoomVersion(ver), InvitedUser: *invited, InvitedSenderID: spec.SenderID(args[3]),
+			RoomID: *roomID, RoomVersion: gmsl.RoomVersion(ver), InvitedUser: *invited, InvitedSenderID: inputSID,
 			InviteEvent: ev, StrippedState: stripped, KeyID: hsKeyID, PrivateKey: hsLocalKey, Verifier: hsVerifierFor(args[5], verImpl, ev, domOfSender),
 			RoomQuerier:       &hsRoomQuerier{known: args[6]},
-			MembershipQuerier: &hsMembership{cur: args[9], check: true, wantRoom: roomID.String(), wantSender: spec.SenderID(args[3])},
+			MembershipQuerier: &hsMembership{cur: args[9], check: true, wantRoom: roomID.String(), wantSender: target, others: "m:leave"},
 			StateQuerier:      &hsStateQuerier{mode: args[8], ev: ev}, UserIDQuerier: hsUserQuerier(args[4]),
 		})
 		if err != nil {
@@ -523,6 +594,9 @@ func genHandshake(o *Out, tier string, r *Rng) {
 	for i := 0; i < n/2; i++ {
 		genPerformJoin(o, r, i)
 	}
+	genPerformJoinAdopt(o, tier, r)
+	genPerformJoinBodies(o, tier, r)
+	genPerformJoinPseudo(o, tier, r)
 	genInviteV3Fixed(o, r)
 	for i := 0; i < n/3; i++ {
 		genInviteV3(o, r, i)
@@ -610,6 +684,9 @@ func hsForge(ver string, e *Ev, cls, name string) *Ev {
 type hsFix struct {
 	ver, typ, forge string
 	happy           bool
+	// round 5: the user-ID querier's mode ("nil" = (nil, nil)), the invite's target ("localother": another local user than
+	// the invited one), the target's membership, and input.InvitedSenderID ("same" / "empty" / "target" / "other")
+	senderQ, target, cur, inputSID string
 	// variant: a member-content name under another spelling ("alone": instead of the exact member, "after" / "before":
 	// next to the exact member, which carries another value).  Member names are exact: Membership(), the decode of
 	// MemberContent and the auth rules ignore the other spellings.
@@ -651,6 +728,8 @@ func genSendJoinFixed(o *Out, r *Rng) {
 		for _, v := range hsVariantClasses {
 			genSendJoinFix(o, r, 1000, hsFix{ver: ver, variant: v, happy: true})
 		}
+		// the user-ID querier knows no user for the sender and reports no error
+		genSendJoinFix(o, r, 1000, hsFix{ver: ver, happy: true, senderQ: "nil"})
 	}
 }
 
@@ -772,7 +851,10 @@ func genSendJoinFix(o *Out, r *Rng, i int, fix hsFix) {
 		cls, evArg, typArg = "x", "-", "-"
 	}
 	reqID := pickDev(r, p, id, "$different:hs2")
-	senderQ := pickDev(r, max(p, 95), "ok", "err")
+	senderQ := pickDev(r, max(p, 95), "ok", "err", "nil")
+	if fix.senderQ != "" {
+		senderQ = fix.senderQ
+	}
 	verify := pickDev(r, p, "good", "bad", "err")
 	pcur := 70
 	if fix.happy {
@@ -781,6 +863,9 @@ func genSendJoinFix(o *Out, r *Rng, i int, fix hsFix) {
 	cur := pickDev(r, pcur, "m:leave", "m:join", "m:ban", "m:", "m:invite", "m:knock", "err")
 	res := o.Do("sendjoin", ver, cls, evArg, typArg, hx([]byte("!room:hs1")), hx([]byte(reqID)), origin, local, senderQ, verify, cur)
 	o.Count("sendjoin." + strings.SplitN(res, ":sig", 2)[0])
+	if senderQ == "nil" {
+		o.Count("sendjoin.sender-querier-nil." + strings.SplitN(res, ":sig", 2)[0])
+	}
 	if typ != spec.MRoomMember && cls != "x" {
 		o.Count("sendjoin.type-not-member." + strings.SplitN(res, ":sig", 2)[0])
 	}
@@ -947,6 +1032,15 @@ func genInviteFixed(o *Out, r *Rng) {
 		for _, v := range hsVariantClasses {
 			genInviteFix(o, r, 1000, hsFix{ver: ver, variant: v, happy: true})
 		}
+		// the user-ID querier knows no user for the sender and reports no error
+		genInviteFix(o, r, 1000, hsFix{ver: ver, happy: true, senderQ: "nil"})
+		// an invite FOR another local user (joined / not joined) than the invited user the handler is given, with each
+		// way of filling input.InvitedSenderID; and the accepting path with InvitedSenderID left empty
+		for _, sid := range []string{"same", "empty", "target"} {
+			genInviteFix(o, r, 1000, hsFix{ver: ver, happy: true, target: "localother", cur: "m:join", inputSID: sid})
+			genInviteFix(o, r, 1000, hsFix{ver: ver, happy: true, target: "localother", cur: "m:leave", inputSID: sid})
+			genInviteFix(o, r, 1000, hsFix{ver: ver, happy: true, target: "invited", cur: "m:join", inputSID: sid})
+		}
 	}
 }
 
@@ -972,14 +1066,26 @@ func genInviteFix(o *Out, r *Rng, i int, fix hsFix) {
 	membership := pickDev(r, p, "invite", "join", "leave", "ban", "knock")
 	typ := pickDev(r, max(p, 92), spec.MRoomMember, spec.MRoomPowerLevels, "m.room.message")
 	var sk *string
-	switch pickDev(r, p, "invited", "other", "none") {
+	skMode := pickDev(r, p, "invited", "other", "none", "localother", "localother")
+	if fix.target != "" {
+		skMode = fix.target
+	}
+	switch skMode {
 	case "invited":
 		sk = sp(invited)
 	case "other":
 		sk = sp("@mallory:hs9")
+	case "localother":
+		// another user of the invited user's server: the handler is handed `InvitedUser: @alice:hs1` with an invite FOR @bob:hs1
+		sk = sp("@bob:hs1")
 	}
 	if typ == spec.MRoomPowerLevels {
 		sk = sp("")
+	}
+	// input.InvitedSenderID: the invited user's ID / "" / the event's state key
+	inputSID := pickDev(r, max(p, 80), "same", "empty", "target")
+	if fix.inputSID != "" {
+		inputSID = fix.inputSID
 	}
 	g.RoomID = pickDev(r, p, "!room:hs2", "!elsewhere:hs2")
 	mc := map[string]interface{}{"membership": membership}
@@ -1019,7 +1125,10 @@ func genInviteFix(o *Out, r *Rng, i int, fix hsFix) {
 			o.Count("invite.planted-local-sig.gen-failed")
 		}
 	}
-	senderQ := pickDev(r, max(p, 93), "ok", "err")
+	senderQ := pickDev(r, max(p, 93), "ok", "err", "nil")
+	if fix.senderQ != "" {
+		senderQ = fix.senderQ
+	}
 	verify := pickDev(r, p, "good", "bad", "err")
 	pq := func(q int) int {
 		if fix.happy {
@@ -1031,8 +1140,17 @@ func genInviteFix(o *Out, r *Rng, i int, fix hsFix) {
 	stripped := pickDev(r, pq(50), "0", "1", "3")
 	stateq := pickDev(r, pq(70), "2", "0", "err")
 	cur := pickDev(r, pq(70), "m:leave", "m:join", "m:invite", "m:", "err")
-	res := o.Do("invite", ver, ev.Arg(), hx([]byte("!room:hs2")), invited, senderQ, verify, known, stripped, stateq, cur)
+	if fix.cur != "" {
+		cur = fix.cur
+	}
+	res := o.Do("invite", ver, ev.Arg(), hx([]byte("!room:hs2")), invited, senderQ, verify, known, stripped, stateq, cur, inputSID)
 	o.Count("invite." + strings.SplitN(res, ":sig", 2)[0])
+	if skMode != "invited" && skMode != "none" {
+		o.Count("invite.target-not-the-invited-user." + skMode + ".cur=" + cur + "." + strings.SplitN(res, ":sig", 2)[0])
+	}
+	if senderQ == "nil" {
+		o.Count("invite.sender-querier-nil." + strings.SplitN(res, ":sig", 2)[0])
+	}
 	if typ != spec.MRoomMember {
 		o.Count("invite.type-not-member." + strings.SplitN(res, ":sig", 2)[0])
 	}
@@ -1205,23 +1323,7 @@ func execPerformJoin(args []string) (res string) {
 		StoreSenderIDFromPublicID: func(ctx context.Context, senderID spec.SenderID, userID string, id spec.RoomID) error { return nil },
 	})
 	if ferr != nil {
-		m := ferr.Err.Error()
-		switch {
-		case strings.HasPrefix(m, "r.federation.MakeJoin"):
-			return "err:make_join"
-		case strings.HasPrefix(m, "r.federation.SendJoin"):
-			return "err:send_join"
-		case strings.HasPrefix(m, "respMakeJoin.JoinEvent"):
-			return "err:build"
-		case strings.HasPrefix(m, "sanityCheckAuthChain"):
-			return "err:no-create"
-		case strings.HasPrefix(m, "respSendJoin.Check"):
-			return "err:check"
-		}
-		if _, ok := ferr.Err.(gmsl.UnsupportedRoomVersionError); ok {
-			return "err:version"
-		}
-		return "err:other"
+		return hsPJErrClass(ferr)
 	}
 	used := "built"
 	if client.sent == nil || out.JoinEvent.EventID() != client.sent.EventID() {
@@ -1230,6 +1332,31 @@ func execPerformJoin(args []string) (res string) {
 	rv := gmsl.RoomVersion(ver)
 	return "ok:" + used + ":" + env.showEvs(out.StateSnapshot.GetAuthEvents().TrustedEvents(rv, false)) + "|" +
 		env.showEvs(out.StateSnapshot.GetStateEvents().TrustedEvents(rv, false))
+}
+
+// hsPJErrClass: which stage of PerformJoin failed
+func hsPJErrClass(ferr *gmsl.FederationError) string {
+	m := ferr.Err.Error()
+	switch {
+	case strings.HasPrefix(m, "r.federation.MakeJoin"):
+		return "err:make_join"
+	case strings.HasPrefix(m, "r.federation.SendJoin"):
+		return "err:send_join"
+	case strings.HasPrefix(m, "Cannot create user room key"):
+		return "err:sender_id"
+	case strings.HasPrefix(m, "cannot sign mxid_mapping"), strings.HasPrefix(m, "respMakeJoin.JoinEvent"):
+		return "err:build"
+	case strings.HasPrefix(m, "sanityCheckAuthChain"):
+		return "err:no-create"
+	case strings.HasPrefix(m, "unable to store mxid_mapping"):
+		return "err:store"
+	case strings.HasPrefix(m, "respSendJoin.Check"):
+		return "err:check"
+	}
+	if _, ok := ferr.Err.(gmsl.UnsupportedRoomVersionError); ok {
+		return "err:version"
+	}
+	return "err:other"
 }
 
 // signReal replaces the placeholder signature of a generated event by a real one of its sender's server.
@@ -1283,15 +1410,27 @@ func genPerformJoin(o *Out, r *Rng, i int) {
 	}
 	// the remote's copy of the join event, when it returns one
 	remote := "-"
+	var remoteJoin *Ev
 	switch r.Intn(6) {
 	case 0:
 		remote = "x"
-	case 1: // a well-formed join of the same user: used instead of ours
+	case 1: // a well-formed join of the same user: used instead of ours if (round 5) the joiner's server validly signed it
 		if e := rm.send(spec.MRoomMember, hsJoiner, sp(hsJoiner), map[string]interface{}{"membership": "join", "displayname": "theirs"}, false, nil); e != nil {
 			remote = rm.tok(e)
+			remoteJoin = e
 		}
-	case 2: // not a join / another user / another room: ignored
-		switch r.Intn(3) {
+	case 2: // not a join / another user / another room / not a member event / sent by somebody else: ignored
+		switch r.Intn(5) {
+		case 3: // an event of another type that looks like a join to Membership(): state_key == sender == the joiner, membership "join"
+			if e := rm.send(Pick(r, []string{"x.custom", "m.room.name", "m.room.Member"}), hsJoiner, sp(hsJoiner), map[string]interface{}{"membership": "join"}, false, nil); e != nil {
+				remote = rm.tok(e)
+				o.Count("performjoin.remote-event-not-a-member-event")
+			}
+		case 4: // a member event for the joiner sent by somebody else
+			if e := rm.send(spec.MRoomMember, rm.admin, sp(hsJoiner), map[string]interface{}{"membership": "join"}, false, nil); e != nil {
+				remote = rm.tok(e)
+				o.Count("performjoin.remote-event-other-sender")
+			}
 		case 0:
 			if e := rm.send(spec.MRoomMember, hsJoiner, sp(hsJoiner), map[string]interface{}{"membership": "leave"}, false, nil); e != nil {
 				remote = rm.tok(e)
@@ -1325,6 +1464,11 @@ func genPerformJoin(o *Out, r *Rng, i int) {
 	byID := map[string]bool{}
 	for k := range bad {
 		byID[rm.pool[k].ID] = true
+	}
+	// half of the remote's well-formed joins are not validly signed by the joiner's server (the placeholder signature stays)
+	if remoteJoin != nil && r.Chance(50) {
+		byID[remoteJoin.ID] = true
+		o.Count("performjoin.remote-join-not-signed-by-us")
 	}
 	for k, e := range rm.pool {
 		if byID[e.ID] {
@@ -1414,12 +1558,25 @@ func execInviteV3(args []string) string {
 	g := NewRoomGen(&Rng{s: 7}, "10")
 	g.RoomID = "!room:hs2"
 	stEv := g.Mk("m.room.name", "@bob:hs2", sp(""), map[string]interface{}{"name": "n"}, []string{}, []string{}, nil)
+	// input.InvitedSenderID (optional 12th argument): "same" = the ID GetOrCreateSenderID will return (default), "empty" = ""
+	// (all a caller has that does not know the ID yet), "other" = the sender ID of somebody else.  `cur` scripts the
+	// membership of the ID GetOrCreateSenderID returns — the state key of the built event, the invite's target; every
+	// other sender ID of the room is not joined.
+	inputSID := invitedSender
+	if len(args) > 11 {
+		switch args[11] {
+		case "empty":
+			inputSID = ""
+		case "other":
+			inputSID = spec.SenderIDFromPseudoIDKey(hsKey("somebody-else-room-key"))
+		}
+	}
 	out, err := gmsl.HandleInviteV3(context.Background(), gmsl.HandleInviteV3Input{
 		HandleInviteInput: gmsl.HandleInviteInput{
-			RoomID: *roomID, RoomVersion: gmsl.RoomVersion(ver), InvitedUser: *invited, InvitedSenderID: invitedSender,
+			RoomID: *roomID, RoomVersion: gmsl.RoomVersion(ver), InvitedUser: *invited, InvitedSenderID: inputSID,
 			StrippedState: stripped, KeyID: hsKeyID, PrivateKey: hsLocalKey, Verifier: &hsVerifier{mode: "good"},
 			RoomQuerier:       &hsRoomQuerier{known: args[7]},
-			MembershipQuerier: &hsMembership{cur: args[10], check: true, wantRoom: roomID.String(), wantSender: invitedSender},
+			MembershipQuerier: &hsMembership{cur: args[10], check: true, wantRoom: roomID.String(), wantSender: invitedSender, others: "m:leave"},
 			StateQuerier:      &hsStateQuerier{mode: args[9], ev: stEv.PDU}, UserIDQuerier: StdQuerier,
 		},
 		InviteProtoEvent: proto,
@@ -1479,6 +1636,12 @@ func genInviteV3Fixed(o *Out, r *Rng) {
 	for _, m := range []string{"join", "leave", "ban", "knock", "Invite", "~missing", "~null", "~num", "~notobject", "~variant", "~variantafter", "~variantbefore"} {
 		genInviteV3Fix(o, r, 1000, hsFix{happy: true}, m)
 	}
+	// input.InvitedSenderID is not the ID GetOrCreateSenderID returns, the user behind the returned ID joined / not joined
+	for _, sid := range []string{"same", "empty", "other"} {
+		for _, cur := range []string{"m:join", "m:leave"} {
+			genInviteV3Fix(o, r, 1000, hsFix{happy: true, inputSID: sid, cur: cur}, "")
+		}
+	}
 }
 
 func genInviteV3Fix(o *Out, r *Rng, i int, fix hsFix, fixMembership string) {
@@ -1509,12 +1672,614 @@ func genInviteV3Fix(o *Out, r *Rng, i int, fix hsFix, fixMembership string) {
 	stripped := pickDev(r, pq(50), "0", "1", "3")
 	stateq := pickDev(r, pq(70), "2", "0", "err")
 	cur := pickDev(r, pq(70), "m:leave", "m:join", "m:invite", "m:", "err")
-	res := o.Do("invitev3", ver, hx([]byte(room)), hx([]byte(protoRoom)), typ, membership, sender, big, known, stripped, stateq, cur)
+	if fix.cur != "" {
+		cur = fix.cur
+	}
+	// input.InvitedSenderID: the ID GetOrCreateSenderID returns / "" (the caller does not know it yet) / somebody else's
+	inputSID := pickDev(r, pq(60), "same", "empty", "other")
+	if fix.inputSID != "" {
+		inputSID = fix.inputSID
+	}
+	res := o.Do("invitev3", ver, hx([]byte(room)), hx([]byte(protoRoom)), typ, membership, sender, big, known, stripped, stateq, cur, inputSID)
 	o.Count("invitev3." + res)
+	if inputSID != "same" {
+		o.Count("invitev3.input-sender-id-" + inputSID + ".cur=" + cur + "." + res)
+	}
 	if typ != spec.MRoomMember || (membership != "invite" && membership != "~variantbefore") {
 		o.Count("invitev3.not-an-invite." + res)
 	}
 	if i == 1000 && (fix.typ == "t:m.room.power_levels" || fixMembership == "join") {
 		o.Sample("invitev3 type=" + typ + " membership=" + membership + " -> " + res)
+	}
+}
+
+// ---------------------------------------------------------------- PerformJoin: which event comes back (round 5)
+
+// The joining server is hs5 with a key of its own; every other server (hs1, the resident server answering make_join /
+// send_join, included) signs with the "remote" key.  A signature under the name hs5 that verifies can only have been made here.
+var hsJoinerServerKey = hsKey("hs5-joining-server")
+
+type hsKeyDBByServer struct{}
+
+func (hsKeyDBByServer) FetcherName() string { return "hsKeyDBByServer" }
+func (hsKeyDBByServer) FetchKeys(ctx context.Context, requests map[gmsl.PublicKeyLookupRequest]spec.Timestamp) (map[gmsl.PublicKeyLookupRequest]gmsl.PublicKeyLookupResult, error) {
+	res := map[gmsl.PublicKeyLookupRequest]gmsl.PublicKeyLookupResult{}
+	for req := range requests {
+		key := hsRemoteKey
+		if req.ServerName == "hs5" {
+			key = hsJoinerServerKey
+		}
+		res[req] = gmsl.PublicKeyLookupResult{
+			VerifyKey:    gmsl.VerifyKey{Key: spec.Base64Bytes(key.Public().(ed25519.PublicKey))},
+			ValidUntilTS: spec.Timestamp(4102444800000), // 2100-01-01
+			ExpiredTS:    gmsl.PublicKeyNotExpired,
+		}
+	}
+	return res, nil
+}
+func (hsKeyDBByServer) StoreKeys(ctx context.Context, results map[gmsl.PublicKeyLookupRequest]gmsl.PublicKeyLookupResult) error {
+	return nil
+}
+
+// hsRemoteJoinClasses: what the resident server puts into the "event" member of its send_join response.
+//
+//	none           no event                         x            an unparseable event
+//	echo           the event we sent, as it is      echo-sig     … plus the resident server's signature
+//	echo-unsigned  … plus an unsigned section and the resident server's signature
+//	echo-nosig     the event we sent WITHOUT our signature, with the resident server's
+//	redacted       the redacted form of the event we sent (our signature still verifies), plus the resident server's signature
+//	replay         ANOTHER join of the same user and room, validly signed with the joining server's key (an earlier join of ours)
+//	custom         an event of type x.custom with sender = state key = the joiner and content.membership "join", citing (when
+//	               the state lists it) our genuine join as the sender's membership; signed by the resident server only
+//	forged-content an m.room.member join "by" the joiner with content, timestamp and hashes of the resident server's choosing,
+//	               signed by the resident server only      forged-stale  … carrying our signature of the genuine event as well
+//	forged-auth    the same with other auth_events         other-sender  a member event for the joiner sent by the room's admin
+//	leave          a leave "by" the joiner
+var hsRemoteJoinClasses = []string{"none", "x", "echo", "echo-sig", "echo-unsigned", "echo-nosig", "redacted", "replay", "custom",
+	"forged-content", "forged-stale", "forged-auth", "other-sender", "leave"}
+
+func hsEditJSON(raw []byte, f func(m map[string]json.RawMessage)) []byte {
+	var m map[string]json.RawMessage
+	if json.Unmarshal(raw, &m) != nil {
+		return nil
+	}
+	f(m)
+	out, _ := json.Marshal(m)
+	cj, err := gmsl.CanonicalJSON(out)
+	if err != nil {
+		return nil
+	}
+	return cj
+}
+
+// hsCraftRemoteJoin makes the resident server's copy of the join event out of the event PerformJoin sent.
+func hsCraftRemoteJoin(verImpl gmsl.IRoomVersion, sent gmsl.PDU, cls string, instate bool, admin string) spec.RawJSON {
+	withRemoteSig := func(raw []byte) spec.RawJSON {
+		ev, err := verImpl.NewEventFromUntrustedJSON(raw)
+		if err != nil {
+			return spec.RawJSON(raw)
+		}
+		return spec.RawJSON(ev.Sign("hs1", "ed25519:1", hsRemoteKey).JSON())
+	}
+	build := func(typ, sender string, content map[string]interface{}, authIDs []string, origin string, key ed25519.PrivateKey, ts time.Time) []byte {
+		sk := hsJoiner
+		cj, _ := json.Marshal(content)
+		proto := gmsl.ProtoEvent{SenderID: sender, RoomID: sent.RoomID().String(), Type: typ, StateKey: &sk,
+			PrevEvents: sent.PrevEventIDs(), AuthEvents: authIDs, Depth: sent.Depth(), Content: cj}
+		ev, err := verImpl.NewEventBuilderFromProtoEvent(&proto).Build(ts, spec.ServerName(origin), "ed25519:1", key)
+		if err != nil {
+			return []byte(`{"type":`)
+		}
+		return ev.JSON()
+	}
+	ts := sent.OriginServerTS().Time()
+	auth := sent.AuthEventIDs()
+	switch cls {
+	case "none":
+		return nil
+	case "x":
+		return spec.RawJSON(`{"type":`)
+	case "echo":
+		return spec.RawJSON(sent.JSON())
+	case "echo-sig":
+		return withRemoteSig(sent.JSON())
+	case "echo-unsigned":
+		return withRemoteSig(hsEditJSON(sent.JSON(), func(m map[string]json.RawMessage) { m["unsigned"] = json.RawMessage(`{"age":5}`) }))
+	case "echo-nosig":
+		return withRemoteSig(hsEditJSON(sent.JSON(), func(m map[string]json.RawMessage) { delete(m, "signatures") }))
+	case "redacted":
+		red, err := verImpl.RedactEventJSON(sent.JSON())
+		if err != nil {
+			return spec.RawJSON(`{"type":`)
+		}
+		return withRemoteSig(red)
+	case "replay":
+		return spec.RawJSON(build(spec.MRoomMember, hsJoiner, map[string]interface{}{"membership": "join", "displayname": "earlier"}, auth, "hs5", hsJoinerServerKey, ts.Add(-time.Hour)))
+	case "custom":
+		a := auth
+		if instate {
+			// the joiner's membership in the state the resident server presents: our genuine join
+			var keep []string
+			for _, id := range auth[:min(2, len(auth))] { // create (where it is cited), power levels
+				keep = append(keep, id)
+			}
+			a = append(keep, sent.EventID())
+		}
+		return spec.RawJSON(build("x.custom", hsJoiner, map[string]interface{}{"membership": "join"}, a, "hs1", hsRemoteKey, ts))
+	case "forged-content", "forged-stale":
+		raw := build(spec.MRoomMember, hsJoiner, map[string]interface{}{"membership": "join", "displayname": "chosen by the resident server"}, auth, "hs1", hsRemoteKey, ts.Add(time.Second))
+		if cls == "forged-stale" {
+			var ours struct {
+				Signatures map[string]json.RawMessage `json:"signatures"`
+			}
+			_ = json.Unmarshal(sent.JSON(), &ours)
+			raw = hsEditJSON(raw, func(m map[string]json.RawMessage) {
+				sigs := map[string]json.RawMessage{}
+				_ = json.Unmarshal(m["signatures"], &sigs)
+				sigs["hs5"] = ours.Signatures["hs5"]
+				m["signatures"], _ = json.Marshal(sigs)
+			})
+		}
+		return spec.RawJSON(raw)
+	case "forged-auth":
+		return spec.RawJSON(build(spec.MRoomMember, hsJoiner, map[string]interface{}{"membership": "join", "displayname": "n"}, auth[:max(0, len(auth)-1)], "hs1", hsRemoteKey, ts))
+	case "other-sender":
+		return spec.RawJSON(build(spec.MRoomMember, admin, map[string]interface{}{"membership": "join"}, auth, "hs1", hsRemoteKey, ts))
+	case "leave":
+		return spec.RawJSON(build(spec.MRoomMember, hsJoiner, map[string]interface{}{"membership": "leave"}, auth, "hs1", hsRemoteKey, ts))
+	}
+	return nil
+}
+
+type hsAdoptClient struct {
+	mj          *hsMakeJoinResp
+	auth, state []json.RawMessage
+	verImpl     gmsl.IRoomVersion
+	cls, admin  string
+	instate     bool
+	sent        gmsl.PDU
+}
+
+func (c *hsAdoptClient) MakeJoin(ctx context.Context, origin, s spec.ServerName, roomID, userID string) (gmsl.MakeJoinResponse, error) {
+	return c.mj, nil
+}
+func (c *hsAdoptClient) SendJoin(ctx context.Context, origin, s spec.ServerName, event gmsl.PDU) (gmsl.SendJoinResponse, error) {
+	c.sent = event
+	state := append([]json.RawMessage{}, c.state...)
+	if c.instate {
+		state = append(state, json.RawMessage(event.JSON()))
+	}
+	return &hsSendJoinResp{auth: toEventJSONs(c.auth), state: toEventJSONs(state),
+		event: hsCraftRemoteJoin(c.verImpl, event, c.cls, c.instate, c.admin)}, nil
+}
+
+// hsJoinRefs: the auth / prev references of a make_join template in the format of the room version
+func hsJoinRefs(ver string, authIDs []string) (authRefs, prevRefs interface{}) {
+	f, _ := verFormat(ver)
+	ar := []interface{}{}
+	if f == 1 {
+		for _, id := range authIDs {
+			ar = append(ar, []interface{}{id, map[string]interface{}{"sha256": "47DEQpj8HBSa+/TImW+5JCeuQeRkm5NMpJWZG3hSuFU"}})
+		}
+		return ar, []interface{}{[]interface{}{"$prev:hs1", map[string]interface{}{"sha256": "47DEQpj8HBSa+/TImW+5JCeuQeRkm5NMpJWZG3hSuFU"}}}
+	}
+	for _, id := range authIDs {
+		ar = append(ar, id)
+	}
+	return ar, []interface{}{"$prev:hs1"}
+}
+
+// handshake.performjoin_adopt ver pool auth state joinAuth roomID rclass instate admin
+//
+//	pool / auth / state / joinAuth / roomID as in handshake.performjoin (every pool event really signed, nil event provider);
+//	rclass: hsRemoteJoinClasses; instate 1 = the state of the response lists the join event we sent; admin: the room's creator.
+//
+// outcome: err:<stage> | ok:join=<the returned JoinEvent is an m.room.member event of the room with membership "join" whose
+// sender and state key are the joining user>:oursig=<it carries a signature under (hs5, ed25519:1) that VERIFIES with the
+// joining server's public key over its redacted form>:same=<its event ID is that of the event that was sent>:sigs=<names under
+// "signatures">:red=<Redacted()>:n=<auth events>/<state events returned>
+func execPerformJoinAdopt(args []string) (res string) {
+	ver := args[0]
+	env, err := newFcEnv(ver, args[1])
+	if err != nil {
+		return "err:construct"
+	}
+	keyRing := &gmsl.KeyRing{KeyFetchers: nil, KeyDatabase: hsKeyDBByServer{}}
+	for i, e := range env.pool {
+		if gmsl.VerifyEventSignatures(context.Background(), e, keyRing, StdQuerier) != nil {
+			return "err:construct:sig " + strconv.Itoa(i)
+		}
+	}
+	auth, err := env.raws(args[2])
+	if err != nil {
+		return "err:construct:" + err.Error()
+	}
+	state, err := env.raws(args[3])
+	if err != nil {
+		return "err:construct:" + err.Error()
+	}
+	userID, _ := spec.NewUserID(hsJoiner, true)
+	roomID, err := spec.NewRoomID(string(unhx(args[5])))
+	if err != nil {
+		return "err:construct:room"
+	}
+	var authIDs []string
+	for _, i := range natList(args[4]) {
+		authIDs = append(authIDs, env.pool[i].EventID())
+	}
+	authRefs, prevRefs := hsJoinRefs(ver, authIDs)
+	sk := hsJoiner
+	client := &hsAdoptClient{verImpl: env.impl, cls: args[6], instate: args[7] == "1", admin: args[8], auth: auth, state: state,
+		mj: &hsMakeJoinResp{ver: gmsl.RoomVersion(ver), proto: gmsl.ProtoEvent{
+			SenderID: hsJoiner, RoomID: roomID.String(), Type: spec.MRoomMember, StateKey: &sk,
+			PrevEvents: prevRefs, AuthEvents: authRefs, Depth: 20, Content: spec.RawJSON(`{"membership":"join"}`)}}}
+	out, ferr := gmsl.PerformJoin(context.Background(), client, gmsl.PerformJoinInput{
+		UserID: userID, RoomID: roomID, ServerName: "hs1", Content: map[string]interface{}{"displayname": "n"},
+		PrivateKey: hsJoinerServerKey, KeyID: "ed25519:1", KeyRing: keyRing, EventProvider: nil, UserIDQuerier: StdQuerier,
+	})
+	if ferr != nil {
+		return hsPJErrClass(ferr)
+	}
+	return "ok:" + hsJoinReport(env.impl, out.JoinEvent, client.sent, roomID.String(), hsJoiner, "hs5", hsJoinerServerKey) +
+		":n=" + strconv.Itoa(len(out.StateSnapshot.GetAuthEvents())) + "/" + strconv.Itoa(len(out.StateSnapshot.GetStateEvents()))
+}
+
+// hsJoinReport: what the property says about the event PerformJoin returns, measured on that event
+func hsJoinReport(verImpl gmsl.IRoomVersion, ret, sent gmsl.PDU, roomID, joiner, signer string, signerKey ed25519.PrivateKey) string {
+	b := func(x bool) string {
+		if x {
+			return "1"
+		}
+		return "0"
+	}
+	var c map[string]json.RawMessage
+	isJoin := ret.Type() == spec.MRoomMember && json.Unmarshal(ret.Content(), &c) == nil && string(c["membership"]) == `"join"` &&
+		string(ret.SenderID()) == joiner && ret.StateKeyEquals(joiner) && ret.RoomID().String() == roomID
+	return "join=" + b(isJoin) + ":oursig=" + b(piSigValid(verImpl, ret, signer, "ed25519:1", signerKey)) +
+		":same=" + b(sent != nil && ret.EventID() == sent.EventID()) + ":sigs=" + strings.Join(piSigNames(ret.JSON()), ",") +
+		":red=" + b(ret.Redacted())
+}
+
+// genPerformJoinAdopt: every room version x every class of remote copy, with and without our join in the presented state.
+func genPerformJoinAdopt(o *Out, tier string, r *Rng) {
+	for _, ver := range hsVersions {
+		verImpl := gmsl.MustGetRoomVersion(gmsl.RoomVersion(ver))
+		rm := newFcRoom(r, ver)
+		if rm == nil {
+			o.Count("gen-failed")
+			continue
+		}
+		// state_default 0: an ordinary member may send state events of types the power levels do not list
+		users := map[string]interface{}{authUsers[1]: 50}
+		if !verImpl.PrivilegedCreators() {
+			users[rm.admin] = 100
+		}
+		plc := map[string]interface{}{"users": users, "users_default": 0, "events_default": 0, "state_default": 0, "ban": 50, "kick": 50, "invite": 0, "redact": 50}
+		if rm.send(spec.MRoomPowerLevels, rm.admin, sp(""), plc, true, nil) == nil {
+			o.Count("gen-failed")
+			continue
+		}
+		ok := true
+		for k, e := range rm.pool {
+			s := signReal(ver, e)
+			if s == nil {
+				ok = false
+				break
+			}
+			rm.pool[k].PDU, rm.pool[k].JSON = s.PDU, s.JSON
+		}
+		if !ok {
+			o.Count("performjoin_adopt.gen-skip")
+			continue
+		}
+		var authToks, stateToks []string
+		for _, e := range rm.history {
+			authToks = append(authToks, rm.tok(e))
+		}
+		for _, e := range rm.state() {
+			stateToks = append(stateToks, rm.tok(e))
+		}
+		var joinAuth []int
+		for _, id := range rm.authFor(spec.MRoomMember, hsJoiner, sp(hsJoiner)) {
+			for k, e := range rm.pool {
+				if e.ID == id {
+					joinAuth = append(joinAuth, k)
+					break
+				}
+			}
+		}
+		for _, cls := range hsRemoteJoinClasses {
+			for _, instate := range []string{"1", "0"} {
+				if tier != "thorough" && instate == "0" && cls != "custom" && cls != "forged-content" && cls != "echo-sig" && !r.Chance(25) {
+					continue
+				}
+				res := o.Do("performjoin_adopt", ver, rm.poolArg(), strings.Join(authToks, ","), strings.Join(stateToks, ","), fcIdxList(joinAuth),
+					hx([]byte(rm.g.RoomID)), cls, instate, rm.admin)
+				o.Count("performjoin_adopt." + cls + "." + strings.SplitN(strings.SplitN(res, ":n=", 2)[0], ":sigs", 2)[0])
+				if ver == "10" && instate == "1" && (cls == "custom" || cls == "forged-content" || cls == "echo-sig") {
+					o.Sample("performjoin_adopt 10 remote=" + cls + " our join in state -> " + res)
+				}
+			}
+		}
+	}
+}
+
+// ---------------------------------------------------------------- PerformJoin on hostile make_join / send_join BODIES (C18 / C15)
+
+type hsBodiesClient struct {
+	mj    *fclient.RespMakeJoin
+	sj    *fclient.RespSendJoin
+	mjErr bool
+	sjErr bool
+}
+
+func (c *hsBodiesClient) MakeJoin(ctx context.Context, origin, s spec.ServerName, roomID, userID string) (gmsl.MakeJoinResponse, error) {
+	if c.mjErr {
+		return nil, errors.New("make_join: the body does not decode")
+	}
+	return c.mj, nil
+}
+func (c *hsBodiesClient) SendJoin(ctx context.Context, origin, s spec.ServerName, event gmsl.PDU) (gmsl.SendJoinResponse, error) {
+	if c.sjErr {
+		return nil, errors.New("send_join: the body does not decode")
+	}
+	return c.sj, nil
+}
+
+// handshake.performjoin_bodies mjbody sjbody
+//
+//	The two response bodies as they come off the wire (hex), decoded the way the federation client decodes them
+//	(json.Unmarshal into fclient.RespMakeJoin / fclient.RespSendJoin; a body that does not decode is a failed request).
+//
+// outcome: nopanic (whatever PerformJoin returned) | panic:<site> (reported by the harness)
+func execPerformJoinBodies(args []string) string {
+	client := &hsBodiesClient{mj: &fclient.RespMakeJoin{}, sj: &fclient.RespSendJoin{}}
+	client.mjErr = json.Unmarshal(unhx(args[0]), client.mj) != nil
+	client.sjErr = json.Unmarshal(unhx(args[1]), client.sj) != nil
+	userID, _ := spec.NewUserID(hsJoiner, true)
+	roomID, _ := spec.NewRoomID("!room:hs1")
+	joinerKey := hsKey("p-joiner")
+	_, _ = gmsl.PerformJoin(context.Background(), client, gmsl.PerformJoinInput{
+		UserID: userID, RoomID: roomID, ServerName: "hs1", Content: map[string]interface{}{"displayname": "n"},
+		PrivateKey: hsRemoteKey, KeyID: "ed25519:1", KeyRing: &gmsl.KeyRing{KeyFetchers: nil, KeyDatabase: hsKeyDB{}}, EventProvider: nil, UserIDQuerier: piQuerier,
+		GetOrCreateSenderID: func(ctx context.Context, userID spec.UserID, roomID spec.RoomID, roomVersion string) (spec.SenderID, ed25519.PrivateKey, error) {
+			return spec.SenderIDFromPseudoIDKey(joinerKey), joinerKey, nil
+		},
+		StoreSenderIDFromPublicID: func(ctx context.Context, senderID spec.SenderID, userID string, id spec.RoomID) error { return nil },
+	})
+	return "nopanic"
+}
+
+// hsMakeJoinEventClasses: the "event" member of a make_join body, as edits of a well-formed template
+var hsMakeJoinEventClasses = []string{"ok", "content-null", "content-string", "content-array", "content-number", "content-missing",
+	"prev-empty-entry", "auth-bad-entry", "prev-empty-string", "prev-null", "auth-null", "prev-object", "auth-number-entries",
+	"event-missing", "event-null", "event-array", "statekey-number", "depth-string", "depth-huge", "type-other", "sender-other", "room-other",
+	"redacts-set", "unsigned-null", "signatures-number"}
+
+func hsMakeJoinBody(ver, verCls, evCls string, authIDs []string) []byte {
+	authRefs, prevRefs := hsJoinRefs(ver, authIDs)
+	ev := map[string]interface{}{"type": "m.room.member", "sender": hsJoiner, "room_id": "!room:hs1", "state_key": hsJoiner,
+		"content": map[string]interface{}{"membership": "join"}, "prev_events": prevRefs, "auth_events": authRefs, "depth": 20,
+		"origin": "hs1", "origin_server_ts": 1}
+	var evV interface{} = ev
+	switch evCls {
+	case "content-null":
+		ev["content"] = nil
+	case "content-string":
+		ev["content"] = "join"
+	case "content-array":
+		ev["content"] = []interface{}{map[string]interface{}{"membership": "join"}}
+	case "content-number":
+		ev["content"] = 5
+	case "content-missing":
+		delete(ev, "content")
+	case "prev-empty-entry":
+		ev["prev_events"] = []interface{}{[]interface{}{}}
+	case "auth-bad-entry":
+		ev["auth_events"] = []interface{}{[]interface{}{5, map[string]interface{}{}}}
+	case "prev-empty-string":
+		ev["prev_events"] = []interface{}{""}
+	case "prev-null":
+		ev["prev_events"] = nil
+	case "auth-null":
+		ev["auth_events"] = nil
+	case "prev-object":
+		ev["prev_events"] = map[string]interface{}{"a": 1}
+	case "auth-number-entries":
+		ev["auth_events"] = []interface{}{1, 2.5, true, nil}
+	case "event-missing":
+		evV = "~missing"
+	case "event-null":
+		evV = nil
+	case "event-array":
+		evV = []interface{}{}
+	case "statekey-number":
+		ev["state_key"] = 5
+	case "depth-string":
+		ev["depth"] = "20"
+	case "depth-huge":
+		ev["depth"] = json.RawMessage("9223372036854775808")
+	case "type-other":
+		ev["type"] = "m.room.create"
+	case "sender-other":
+		ev["sender"] = "@creator:hs1"
+	case "room-other":
+		ev["room_id"] = "!elsewhere:hs9"
+	case "redacts-set":
+		ev["redacts"] = "$x"
+	case "unsigned-null":
+		ev["unsigned"] = nil
+	case "signatures-number":
+		ev["signatures"] = 5
+	}
+	body := map[string]interface{}{"room_version": ver, "event": evV}
+	if evV == "~missing" {
+		delete(body, "event")
+	}
+	switch verCls {
+	case "missing":
+		delete(body, "room_version")
+	case "unknown":
+		body["room_version"] = "99"
+	case "number":
+		body["room_version"] = 10
+	case "null":
+		body["room_version"] = nil
+	case "empty":
+		body["room_version"] = ""
+	}
+	raw, _ := json.Marshal(body)
+	return raw
+}
+
+// hsSendJoinBodyClasses: edits of a well-formed send_join body (state and auth_chain of a generated room, no event)
+var hsSendJoinBodyClasses = []string{"ok", "event-null", "event-empty-object", "event-array", "event-string", "event-number", "event-type-number",
+	"event-content-null", "event-no-content", "event-custom-type", "state-null", "state-missing", "auth-null", "state-null-entry", "state-number-entry",
+	"state-string-entry", "state-empty-object", "state-array-entry", "auth-empty-object", "auth-empty", "origin-number", "body-array", "body-null",
+	"state-member-content-null", "create-content-null", "create-version-number"}
+
+func hsSendJoinBody(cls string, auth, state []json.RawMessage, create []byte) []byte {
+	body := map[string]interface{}{"origin": "hs1", "auth_chain": auth, "state": state, "members_omitted": false, "servers_in_room": []string{"hs1"}}
+	joinish := func(edit func(m map[string]interface{})) interface{} {
+		m := map[string]interface{}{"type": "m.room.member", "sender": hsJoiner, "room_id": "!room:hs1", "state_key": hsJoiner,
+			"content": map[string]interface{}{"membership": "join"}, "prev_events": []string{"$p"}, "auth_events": []string{}, "depth": 21,
+			"origin_server_ts": 5, "hashes": map[string]string{"sha256": "47DEQpj8HBSa+/TImW+5JCeuQeRkm5NMpJWZG3hSuFU"},
+			"signatures": map[string]interface{}{"hs1": map[string]string{"ed25519:1": base64.RawStdEncoding.EncodeToString(make([]byte, 64))}}}
+		edit(m)
+		return m
+	}
+	editCreate := func(f func(c map[string]interface{})) {
+		var out []json.RawMessage
+		for _, e := range auth {
+			if bytes.Equal(e, create) {
+				var m map[string]interface{}
+				_ = json.Unmarshal(e, &m)
+				f(m)
+				raw, _ := json.Marshal(m)
+				e = raw
+			}
+			out = append(out, e)
+		}
+		body["auth_chain"] = out
+	}
+	switch cls {
+	case "event-null":
+		body["event"] = nil
+	case "event-empty-object":
+		body["event"] = map[string]interface{}{}
+	case "event-array":
+		body["event"] = []interface{}{1}
+	case "event-string":
+		body["event"] = "join"
+	case "event-number":
+		body["event"] = 5
+	case "event-type-number":
+		body["event"] = joinish(func(m map[string]interface{}) { m["type"] = 5 })
+	case "event-content-null":
+		body["event"] = joinish(func(m map[string]interface{}) { m["content"] = nil })
+	case "event-no-content":
+		body["event"] = joinish(func(m map[string]interface{}) { delete(m, "content") })
+	case "event-custom-type":
+		body["event"] = joinish(func(m map[string]interface{}) { m["type"] = "x.custom" })
+	case "state-null":
+		body["state"] = nil
+	case "state-missing":
+		delete(body, "state")
+	case "auth-null":
+		body["auth_chain"] = nil
+	case "state-null-entry":
+		body["state"] = append([]interface{}{nil}, toIfaces(state)...)
+	case "state-number-entry":
+		body["state"] = append([]interface{}{5}, toIfaces(state)...)
+	case "state-string-entry":
+		body["state"] = append([]interface{}{"x"}, toIfaces(state)...)
+	case "state-empty-object":
+		body["state"] = append([]interface{}{map[string]interface{}{}}, toIfaces(state)...)
+	case "state-array-entry":
+		body["state"] = append([]interface{}{[]interface{}{}}, toIfaces(state)...)
+	case "auth-empty-object":
+		body["auth_chain"] = append([]interface{}{map[string]interface{}{}}, toIfaces(auth)...)
+	case "auth-empty":
+		body["auth_chain"] = []interface{}{}
+	case "origin-number":
+		body["origin"] = 5
+	case "state-member-content-null":
+		body["state"] = append([]interface{}{joinish(func(m map[string]interface{}) { m["content"] = nil })}, toIfaces(state)...)
+	case "create-content-null":
+		editCreate(func(c map[string]interface{}) { c["content"] = nil })
+	case "create-version-number":
+		editCreate(func(c map[string]interface{}) { c["content"] = map[string]interface{}{"room_version": 10} })
+	case "body-array":
+		return []byte(`[]`)
+	case "body-null":
+		return []byte(`null`)
+	}
+	raw, _ := json.Marshal(body)
+	return raw
+}
+
+func toIfaces(xs []json.RawMessage) []interface{} {
+	out := make([]interface{}, 0, len(xs))
+	for _, x := range xs {
+		out = append(out, x)
+	}
+	return out
+}
+
+// genPerformJoinBodies: a well-formed exchange per room version, then each class of hostile make_join body against the
+// well-formed send_join body and each class of hostile send_join body after the well-formed make_join body.
+func genPerformJoinBodies(o *Out, tier string, r *Rng) {
+	vers := []string{"1", "2", "3", "10", "12", piPseudoVer}
+	if tier == "thorough" {
+		vers = append(append([]string{}, hsVersions...), piPseudoVer)
+	}
+	for _, ver := range vers {
+		var auth, state []json.RawMessage
+		var create []byte
+		var authIDs []string
+		if ver != piPseudoVer {
+			rm := newFcRoom(r, ver)
+			if rm == nil {
+				o.Count("gen-failed")
+				continue
+			}
+			for _, e := range rm.history {
+				if s := signReal(ver, e); s != nil {
+					auth = append(auth, s.JSON)
+					if e == rm.create {
+						create = s.JSON
+					}
+				}
+			}
+			for _, e := range rm.state() {
+				if s := signReal(ver, e); s != nil {
+					state = append(state, s.JSON)
+				}
+			}
+			authIDs = rm.authFor(spec.MRoomMember, hsJoiner, sp(hsJoiner))
+		}
+		do := func(verCls, evCls, sjCls string) {
+			mj := hsMakeJoinBody(ver, verCls, evCls, authIDs)
+			sj := hsSendJoinBody(sjCls, auth, state, create)
+			res := o.Do("performjoin_bodies", hx(mj), hx(sj))
+			o.Count("performjoin_bodies." + strings.SplitN(res, ":", 3)[0])
+			if strings.HasPrefix(res, "panic") {
+				o.Count("performjoin_bodies.panic.ver=" + ver + ".room_version=" + verCls + ".event=" + evCls + ".send_join=" + sjCls)
+			}
+		}
+		for _, evCls := range hsMakeJoinEventClasses {
+			do("ok", evCls, "ok")
+			if evCls == "ok" || evCls == "content-null" || strings.HasPrefix(evCls, "prev-") || strings.HasPrefix(evCls, "auth-") {
+				// "If not provided, the room version is assumed to be either 1 or 2": the version then follows from the auth events
+				do("missing", evCls, "ok")
+				do("empty", evCls, "ok")
+			}
+		}
+		for _, verCls := range []string{"unknown", "number", "null"} {
+			do(verCls, "ok", "ok")
+		}
+		for _, sjCls := range hsSendJoinBodyClasses {
+			do("ok", "ok", sjCls)
+		}
 	}
 }
